@@ -11,6 +11,7 @@ for pf in refactors/*.diff; do
   git -C /repo archive HEAD | tar -x -C "$scratch"
   if ! (cd "$scratch" && patch -p1 -s < "$here/$pf"); then echo "NOAPPLY $name" | tee -a refactors/RESULTS.txt; rm -rf "$scratch"; continue; fi
   suite=$(cd "$scratch" && PYTHONPATH="$scratch" MPLBACKEND=Agg /venv/bin/python -m pytest -q -p no:cacheprovider --timeout=900 sedfitter 2>&1 | tail -1 | cut -c1-40)
+  case "$suite" in *failed*|*error*) echo "STALE   $name  (the control itself breaks the repository suite: $suite — rebase the diff)" | tee -a refactors/RESULTS.txt; rm -rf "$scratch"; continue;; esac
   bad=""
   for c in C01 C02 C03 C04 C05 C06 C07 C08 C09 C10 C11 C12 C13 C14 C15 C16 C17 C18 C19 C20; do
     out=$(VERIF_REPO="$scratch" ./check $c --tier "$tier" 2>&1 | grep -E "^(VIOLATION|INCONCLUSIVE)" | head -3 | cut -c1-160 | tr '\n' ';')
@@ -19,4 +20,4 @@ for pf in refactors/*.diff; do
   if [ -z "$bad" ]; then echo "SILENT  $name  (suite: $suite)" | tee -a refactors/RESULTS.txt; else echo "ALARM   $name  $bad" | tee -a refactors/RESULTS.txt; fi
   rm -rf "$scratch"
 done
-! grep -q -E '^(ALARM|NOAPPLY)' refactors/RESULTS.txt
+! grep -q -E '^(ALARM|NOAPPLY|STALE)' refactors/RESULTS.txt
